@@ -14,7 +14,7 @@ Clauses
   envelope    |H - exact|_jk <= TOL_H[method|k-bucket] * S_2(j, k) + floor
   hd-quadratic / hd-envelope   the same for Hessdiag(method, order in {2, 4, 6}) with TOL_HD[method|k-bucket]
   extrapolated-order  |lib - exact| <= C_X[target|method] * T + C_XR * R + floor (Hessian and Hessdiag), T + R = the
-              Richardson-aware unit min(U_basic, U_x) of multivar.extrapolated_unit: documented leading order p and spacing s (restated
+              Richardson-aware unit U_x (U_basic if k_est = 1) of multivar.extrapolated_unit: documented leading order p and spacing s (restated
               there, never read from the library), U_x = truncation terms of total degree >= 2 + p + s t of the
               majorant series at the window heads + rounding at the window tails, times sum |rule weights| * sum
               |Richardson weights|, t = min(2, k_est - 1); asserted for the short geometric user sequences (step kind
@@ -46,7 +46,7 @@ QUAD_REAL = 4096.0
 QUAD_MCX = 64.0
 K_CONS = 1e6
 # extrapolated-order clause: |err| <= C_X[target|method] * T + C_XR * R + floor, (T, R) = truncation and rounding parts
-# of min(U_basic, U_x); asserted for the short geometric user sequences (step kind 'geo') and for the default
+# of U_x (U_basic if k_est = 1); asserted for the short geometric user sequences (step kind 'geo') and for the default
 # configuration of the real-step methods.  Worst err/T over truncation-dominated entries (8 quick seeds + thorough
 # seed 0, 95 000 cases): Hessian central 0.20, central2 14, complex 0.14, multicomplex 0.26, forward 8.3, backward 66;
 # Hessdiag central 33, central2 57, complex 0.066, multicomplex (order 2) 0.008, forward 15, backward 68.
